@@ -175,6 +175,8 @@ def run_c06(it):
                      lambda: dtw.distance_matrix_fast(mat, block=blk, compact=True, parallel=False, **kw), compact)
             _compact(c, "native:dtw_distances_matrix",
                      lambda: _native_matrix(it, c, "dtw_distances_matrix", layout="matrix"), compact)
+            _compact(c, "native:dtw_distances_matrices",
+                     lambda: _native_matrix(it, c, "dtw_distances_matrices", layout="matrix"), compact)
         _compact(c, "native:dtw_distances_ptrs", lambda: _native_matrix(it, c, "dtw_distances_ptrs"), compact)
     else:
         _compact(c, "py:dtw_ndim.distance_matrix[list]",
@@ -189,6 +191,8 @@ def run_c06(it):
                      lambda: dtw_ndim.distance_matrix_fast(cube, block=blk, compact=True, parallel=False, **kw), compact)
             _compact(c, "native:dtw_distances_ndim_matrix",
                      lambda: _native_matrix(it, c, "dtw_distances_ndim_matrix", layout="matrix"), compact)
+            _compact(c, "native:dtw_distances_ndim_matrices",
+                     lambda: _native_matrix(it, c, "dtw_distances_ndim_matrices", layout="matrix"), compact)
         _compact(c, "native:dtw_distances_ndim_ptrs", lambda: _native_matrix(it, c, "dtw_distances_ndim_ptrs"), compact)
     # square forms (triangular blocks only: a non-triangular block requires compact=True)
     if it["triu"]:
@@ -332,12 +336,16 @@ def run_c07(it):
                      lambda: dtw.distance_matrix_fast(mat, block=blk, compact=True, parallel=True, **kw), compact)
             _compact(c, "omp[%d]:native:dtw_distances_matrix_parallel" % k,
                      lambda: _native_matrix(it, c, "dtw_distances_matrix_parallel", layout="matrix"), compact)
+            _compact(c, "omp[%d]:native:dtw_distances_matrices_parallel" % k,
+                     lambda: _native_matrix(it, c, "dtw_distances_matrices_parallel", layout="matrix"), compact)
         if equal and nd > 1:
             cube = np().array(sn)
             _compact(c, "omp[%d]:dtw_ndim.distance_matrix_fast[3-D array]" % k,
                      lambda: dtw_ndim.distance_matrix_fast(cube, block=blk, compact=True, parallel=True, **kw), compact)
             _compact(c, "omp[%d]:native:dtw_distances_ndim_matrix_parallel" % k,
                      lambda: _native_matrix(it, c, "dtw_distances_ndim_matrix_parallel", layout="matrix"), compact)
+            _compact(c, "omp[%d]:native:dtw_distances_ndim_matrices_parallel" % k,
+                     lambda: _native_matrix(it, c, "dtw_distances_ndim_matrices_parallel", layout="matrix"), compact)
         _compact(c, "omp[%d]:native:dtw_distances%s_ptrs_parallel" % (k, "_ndim" if nd > 1 else ""),
                  lambda: _native_matrix(it, c, "dtw_distances_ndim_ptrs_parallel" if nd > 1
                                         else "dtw_distances_ptrs_parallel"), compact)
@@ -372,3 +380,62 @@ def run_c07(it):
         plans.append(r)
     return {"id": it["id"], "lens": lens, "idxs": [], "compact": compact, "square": [], "aidx": [], "events": [],
             "plans": plans, "routes": [x["route"] for x in compact + plans]}
+
+
+# ---------------------------------------------------------------------------------------------
+# C07 binding 3: the real loop bodies under imposed schedules (native/gomp_shim.c instead of libgomp)
+def run_c07_shim(it):
+    import itertools
+    import random
+    from . import build, native
+    lib = native.lib_at(build.native_lib("shim"))
+    L = lib.L
+    L.shim_set_script.argtypes = [ctypes.c_int, ctypes.c_long, ctypes.POINTER(ctypes.c_int),
+                                  ctypes.POINTER(ctypes.c_long)]
+    c = case_of(it)
+    nd = len(it["ser"][0][0])
+    equal = len({len(s) for s in it["ser"]}) == 1
+    nrows = it["blk"][1] - it["blk"][0]
+    rng = random.Random("shim-%s" % it["id"])
+    fns = ["dtw_distances_ndim_ptrs_parallel" if nd > 1 else "dtw_distances_ptrs_parallel"]
+    if equal:
+        fns.append("dtw_distances_ndim_matrix_parallel" if nd > 1 else "dtw_distances_matrix_parallel")
+    scripts = []
+    for T in it["shim_threads"]:
+        if nrows <= 3 and T <= 2:
+            for perm in itertools.permutations(range(nrows)):
+                for assign in itertools.product(range(T), repeat=nrows):
+                    scripts.append((T, list(zip(assign, perm))))
+        else:
+            for _ in range(it["shim_samples"]):
+                perm = list(range(nrows))
+                rng.shuffle(perm)
+                scripts.append((T, [(rng.randrange(T), r) for r in perm]))
+    compact = []
+    serial = None
+    shown = 0
+    nrun = 0
+    for fn in fns:
+        layout = "matrix" if "matrix" in fn else "ptrs"
+        serial_fn = fn.replace("_parallel", "")
+        ref = dtwx.guarded(lambda: _native_matrix(it, c, serial_fn, layout=layout, lib=lib))
+        compact.append({"route": "shim:serial:" + serial_fn,
+                        "vals": [dtwx.RAISED] if dtwx.is_raised(ref) else enc_vals(c, ref)})
+        for (T, script) in scripts:
+            th, its_ = zip(*script) if script else ((), ())
+            L.shim_set_script(T, len(script), (ctypes.c_int * max(1, len(script)))(*th),
+                              (ctypes.c_long * max(1, len(script)))(*its_))
+            r = dtwx.guarded(lambda: _native_matrix(it, c, fn, layout=layout, lib=lib))
+            nrun += 1
+            err = L.shim_last_error()
+            deviant = dtwx.is_raised(r) or dtwx.is_raised(ref) or err != 0 or \
+                [repr(x) for x in r] != [repr(x) for x in ref]
+            if deviant or shown < 2:
+                shown += 1
+                name = "shim[T=%d,%s]:%s%s" % (T, ";".join("%d>%d" % (a, b) for a, b in script), fn,
+                                              (":shim-error-%d" % err) if err else "")
+                compact.append({"route": name, "vals": [dtwx.RAISED] if dtwx.is_raised(r) else enc_vals(c, r)})
+            if len(compact) > 12:
+                break
+    return {"id": it["id"], "lens": [], "idxs": [], "compact": compact, "square": [], "aidx": [], "events": [],
+            "plans": [], "routes": [x["route"] for x in compact], "schedules": nrun}
